@@ -9,6 +9,8 @@ mod seq_mempool;
 mod seq_full;
 mod hostile;
 mod c04;
+mod sim;
+mod sim_checks;
 mod util;
 mod world;
 #[path = "/repo/node/src/config.rs"]
@@ -61,6 +63,10 @@ fn main() {
         "C09" => protochecks::c09(tier),
         "C10" => protochecks::c10(tier),
         "C19" => protochecks::c19(tier),
+        "C07" => sim_checks::c07(tier),
+        "C13" => sim_checks::c13(tier),
+        "C06dbg" => { sim_checks::debug_c06(); 0 }
+        "C06" => sim_checks::c06(tier),
         "C08" => seq_full::c08(tier),
         "C11dbg" => { seq_mempool::debug_c11(); 0 }
         "C11" => seq_mempool::c11(tier),
